@@ -1084,13 +1084,17 @@ def run(ctx):
             # the compiled function killed the worker (or raised out of the harness) under some plan:
             # run the plans one by one to find it
             one = cybuild.call_cases(ctx.workdir, [["c22run.run_plans", [mod, fn, "cy", [c], [[list(x) for x in q]]]]
-                                                   for q in pl for c in (0, 1, 2)], setup="import c22run", alarm=10, timeout=300)
+                                                   for q in pl for c in (0, 1, 2)], setup="import c22run", alarm=10, timeout=300,
+                                     max_crashes=4)
             rcl = [(r["r"][0] if "r" in r else r) for r in one]
         else:
             rcl = rc["r"]
         k = 0
         for q in pl:
             for c in (0, 1, 2):
+                if isinstance(rcl[k], dict) and rcl[k].get("e") == "WORKER":
+                    k += 1          # not run: the worker was given up after several crashes
+                    continue
                 meta.append((mod, fn, tag, specialise(p, q), c, q))
                 runs.append((parse_run(rcl[k]), parse_run(rp["r"][k])))
                 k += 1
